@@ -525,7 +525,7 @@ inline void forkedCases(long n, const std::function<void(long)> &fn, int timeout
     if (killed) {
       int h = ++hangs[at];
       if (h >= 2) {
-        ++abnormal;
+        abnormal += 5;  // a confirmed hang has cost two watchdog periods: at most 8 of them per run
         emit(J().kv("t", "hang").kv("case", describe ? describe(at) : std::to_string(at)).kv("index", (long long)at).kv("pid", (long long)pid).str());
         k = at + 1;
       } else {
